@@ -205,8 +205,9 @@ def standin_unit(tier: str, seed: int):
     def harness(I: Interp) -> None:
         r = ranges_standin(tier, seed)
         I.ghost["standin"] = r
-        I.prove(f"B-ranges-bounded-standin({r['evaluations']}-expressions)",
-                z3.BoolVal(r["n_bad"] == 0), "; ".join(r["violations"][:3]))
+        I.prove("B-ranges-agree-with-their-denotation(bounded-standin)",
+                z3.BoolVal(r["n_bad"] == 0),
+                "; ".join(r["violations"][:3]) or f"{r['evaluations']} expressions")
     return harness
 
 
